@@ -130,6 +130,13 @@ def handlePos (args : List String) : String :=
     match parseSM sm, parseInts ips with
     | some sm, some ips => showInts (ips.map (sourcePos sm))
     | _, _ => "bad-op"
+  | ["fp", sm, ips] =>
+    match parseSM sm, parseInts ips with
+    | some sm, some ips =>
+      let fr := ips.map (fun ip => getFrameSourcePos { fn := some sm, ip := ip, hasHandler := false })
+      let cu := ips.map (fun ip => getSourcePos (some sm) ip)
+      s!"{showInts fr}#{showInts cu}"
+    | _, _ => "bad-op"
   | ["scan", hex] =>
     match bytesOfHex hex.toList with
     | some bs => showInts (scanLines bs)
